@@ -92,8 +92,10 @@ def xprop_term(st, o):
     orc = o.get('oracle') or {}
     t, d = hb(st['title']), st['desc_len']
     if st['op'] == 'relayer':
-        return '(PRelayer %s %d %s %s %d)' % (t, d, coq_bool(orc.get('bech32_ok', False)),
-                                             coq_list([hb(c) for c in st.get('chains') or []]), len(st.get('addresses') or []))
+        # the address string itself (it is the store key) + the observed answer of sdk.AccAddressFromBech32 as the
+        # decoder oracle (for blank strings the model refuses before it asks the oracle, as the SDK does)
+        return '(PRelayer %s %d %s %s %s %d)' % (t, d, hb(st.get('address')), coq_bool(orc.get('bech32_ok', False)),
+                                                coq_list([hb(c) for c in st.get('chains') or []]), len(st.get('addresses') or []))
     con = {'create': 'PCreate', 'upgrade': 'PUpgrade', 'toggle': 'PToggle'}[st['op']]
     return '(%s %s %d %s %s %s)' % (con, t, d, hb(st['chain']), cs_term(st['cs'], orc), cons_term(st['cons']))
 
